@@ -173,8 +173,17 @@ def gen_client_program(rng, w, task_idx, calcs, shots, n_ops, raising_calcs, all
             prog.append(op)
             if op["extra"] and "danger" in allow and rng.random() < 0.6 and len(prog) < n_ops:
                 at = rft * rng.uniform(0.2, 1.3)             # sometimes beyond the trajectory -> ArithmeticError
+                if op.get("step") is not None and rng.random() < 0.45:
+                    # boundary values of "first row with distance >= d": on / just below / just above a recorded row
+                    sft = gen.to_feet(op["step"])
+                    k = rng.randint(1, max(1, int(rft / sft)))
+                    at = max(1.0, k * sft + gen.pick(rng, [0.0, -0.5, 0.5, -1.5, 1.5, -3.0, 3.0, -4.5, 4.5, 1e-6, -1e-6]))
+                if rng.random() < 0.3:
+                    prog.append({"op": "at_dist", "fire": len(prog) - 1, "d": [round(at, 4), "Foot"]})
+                    continue
                 prog.append({"op": "danger", "fire": len(prog) - 1,
-                             "at": gen.gen_distance_ft(rng, round(at, 1), ("Yard", "Meter", "Foot")),
+                             "at": [round(at, 4), "Foot"] if rng.random() < 0.5 else
+                             gen.gen_distance_ft(rng, round(at, 1), ("Yard", "Meter", "Foot")),
                              "height": [round(rng.uniform(0.2, 3.0), 2), gen.pick(rng, ["Meter", "Foot", "Yard"])],
                              "look": None if rng.random() < 0.7 else gen.gen_angle_deg(rng, 2.0)})
         elif kind == "zero":
@@ -224,6 +233,25 @@ def gen_admin_perturb_program(rng, n):
     return prog
 
 
+EXTREME_UNITS = {"Distance": ["Mile", "NauticalMile", "Kilometer", "Line", "Millimeter"],
+                 "Angular": ["OClock", "Radian", "InchesPer100Yd", "CmPer100m"], "Temperature": ["Kelvin", "Rankin"],
+                 "Velocity": ["KT", "KMH"], "Pressure": ["Bar", "PSI"], "Weight": ["Newton", "Kilogram", "Pound"],
+                 "Energy": ["Joule"]}
+HOT_SLOTS = ["distance", "distance", "distance", "drop", "adjustment", "angular", "temperature", "velocity",
+             "target_height", "sight_height"]
+
+
+def pick_slot(rng):
+    return gen.pick(rng, HOT_SLOTS) if rng.random() < 0.5 else gen.pick(rng, list(SLOTS))
+
+
+def pick_unit(rng, dim):
+    """swarm style: half of the time a unit at the coarse / fine / non-linear end of the dimension"""
+    if rng.random() < 0.5:
+        return gen.pick(rng, EXTREME_UNITS[dim])
+    return gen.pick(rng, DIMS[dim])
+
+
 def gen_units_flip_program(rng, n):
     """legal changes of the preferred-unit settings (C07 race mode, C13)"""
     prog = []
@@ -231,19 +259,19 @@ def gen_units_flip_program(rng, n):
         k = gen.pick(rng, ["set_units", "set_units", "assign_unit", "assign_unit", "defaults", "preset", "basic_config"])
         if k == "set_units":
             slots = {}
-            for s in rng.sample(list(SLOTS), rng.randint(1, 4)):
-                slots[s] = ["enum", gen.pick(rng, DIMS[SLOTS[s][0]])]
+            for s in sorted({pick_slot(rng) for _ in range(rng.randint(1, 4))}):     # sorted: hash-seed independent
+                slots[s] = ["enum", pick_unit(rng, SLOTS[s][0])]
             prog.append({"op": "set_units", "slots": slots})
         elif k == "assign_unit":
-            s = gen.pick(rng, list(SLOTS))
-            prog.append({"op": "assign_unit", "slot": s, "unit": gen.pick(rng, DIMS[SLOTS[s][0]])})
+            s = pick_slot(rng)
+            prog.append({"op": "assign_unit", "slot": s, "unit": pick_unit(rng, SLOTS[s][0])})
         elif k == "defaults":
             prog.append({"op": "defaults"})
         elif k == "preset":
             prog.append({"op": "preset", "which": gen.pick(rng, ["metric", "imperial", "mixed"])})
         else:
-            s = gen.pick(rng, list(SLOTS))
-            prog.append({"op": "basic_config", "units": {s: gen.pick(rng, DIMS[SLOTS[s][0]])}})
+            s = pick_slot(rng)
+            prog.append({"op": "basic_config", "units": {s: pick_unit(rng, SLOTS[s][0])}})
     return prog
 
 
